@@ -578,15 +578,16 @@ class LayoutPlugin(Plugin):
         cur = []
         for seg in s.segs:
             if isinstance(seg, Sp):
-                if is_sym(seg.n):
+                if is_sym(seg.n) and cur and not self.entailed(sym.num_cmp(">", seg.n, 0)):
                     if self.ctx.branch(sym.num_cmp("==", seg.n, 0), None):
                         continue  # empty run: neighbours are glued together
                 if cur:
                     words.append(LStr(cur))
                     cur = []
             elif isinstance(seg, TokS) and is_sym(seg.len):
-                if self.ctx.branch(sym.num_cmp("==", seg.len, 0), None):
-                    continue
+                if not self.entailed(sym.num_cmp(">", seg.len, 0)):
+                    if self.ctx.branch(sym.num_cmp("==", seg.len, 0), None):
+                        continue
                 cur.append(seg)
             else:
                 cur.append(seg)
@@ -607,14 +608,32 @@ class LayoutPlugin(Plugin):
         return self.eq(I, head, prefix)
 
     def m_find(self, I, s, sub):
-        # only `find(X) == 0`-style tests on a concrete prefix are supported
-        if isinstance(sub, str) and s.segs and isinstance(s.segs[0], Lit):
+        """Only the distinction `== 0` / `!= 0` is modelled: 0 iff the string starts with sub, otherwise an
+        unspecified value different from 0 (a later occurrence or -1)."""
+        if not isinstance(sub, str) or not sub or " " in sub:
+            raise Unsupported("find with this argument on a layout string")
+        starts = None
+        if not s.segs:
+            starts = False
+        elif isinstance(s.segs[0], Lit):
             t = s.segs[0].text
-            if sub in t:
-                return t.find(sub)
-            if len(s.segs) == 1:
-                return -1
-        raise Unsupported("find on a layout string")
+            if len(t) >= len(sub):
+                starts = t.startswith(sub)
+            elif not sub.startswith(t):
+                starts = False
+            elif len(s.segs) > 1 and isinstance(s.segs[1], Sp) and self.entailed(sym.num_cmp(">", s.segs[1].n, 0)):
+                starts = False
+            elif len(s.segs) == 1:
+                starts = False
+        elif isinstance(s.segs[0], Sp) and self.entailed(sym.num_cmp(">", s.segs[0].n, 0)):
+            starts = False
+        if starts is None:
+            raise Unsupported("find on a layout string whose head is symbolic")
+        if starts:
+            return 0
+        k = self.ctx.fresh("found_at", "Int")
+        self.ctx.assume(z3.Or(k == -1, k > 0))
+        return k
 
     def m_replace(self, I, s, old, new):
         if old == "-" and new == " -":
@@ -628,8 +647,11 @@ class LayoutPlugin(Plugin):
                         out.append(seg)   # the sign, if any, was cut off
                     else:
                         neg = seg.tok.neg if seg.tok.kind == "fixed" else simp(seg.tok.value < 0)
-                        if self.ctx.branch(neg, None):
-                            out.append(Sp(1))
+                        if isinstance(neg, bool):
+                            if neg:
+                                out.append(Sp(1))
+                        else:
+                            out.append(Sp(z3.If(neg, z3.IntVal(1), z3.IntVal(0))))   # no fork on the sign
                         out.append(seg)
                 elif isinstance(seg, TokS):
                     raise Unsupported("replace('-') on a name token")
